@@ -177,26 +177,26 @@ func runFormat(r *hv.Rand, f *xw.Format, nValues, mutPerValue, nRandom int) {
 
 // ---------------------------------------------------------------- frames
 
-func coqFlags(v tubes.VerifFrame) string {
+func coqFlags(v tubes.VerifWireFrame) string {
 	return hv.App("Fl", hv.B(v.REQ), hv.B(v.RESP), hv.B(v.REL), hv.B(v.ACK), hv.B(v.FIN), hv.B(v.RTR))
 }
-func coqFrame(v tubes.VerifFrame) string {
+func coqFrame(v tubes.VerifWireFrame) string {
 	return hv.App("Fr", hv.N(uint64(v.AckNo)), hv.N(uint64(v.FrameNo)), hv.N(uint64(v.DataLength)), coqFlags(v), hv.N(uint64(v.TubeID)), xw.CoqBytes(v.Data))
 }
-func coqIFrame(v tubes.VerifInitFrame) string {
+func coqIFrame(v tubes.VerifWireInitFrame) string {
 	fl := hv.App("Fl", hv.B(v.REQ), hv.B(v.RESP), hv.B(v.REL), hv.B(v.ACK), hv.B(v.FIN), hv.B(v.RTR))
 	return hv.App("Ifr", hv.N(uint64(v.FrameNo)), hv.N(uint64(v.TubeID)), hv.N(uint64(v.TubeType)), xw.CoqBytes(v.Data), hv.N(uint64(v.DataLength)), fl)
 }
-func eqFrame(a, b tubes.VerifFrame) bool {
+func eqFrame(a, b tubes.VerifWireFrame) bool {
 	return a.AckNo == b.AckNo && a.FrameNo == b.FrameNo && a.DataLength == b.DataLength && a.TubeID == b.TubeID &&
 		a.REQ == b.REQ && a.RESP == b.RESP && a.REL == b.REL && a.ACK == b.ACK && a.FIN == b.FIN && a.RTR == b.RTR && bytes.Equal(a.Data, b.Data)
 }
 
 var u32s = []uint32{0, 1, 2, 255, 256, 65535, 65536, 1<<31 - 1, 1 << 31, 1<<32 - 2, 1<<32 - 1}
 
-func genFrame(r *hv.Rand) tubes.VerifFrame {
+func genFrame(r *hv.Rand) tubes.VerifWireFrame {
 	n := hv.Pick(r, []int{0, 0, 1, 2, 11, 12, 13, 100, 1000})
-	f := tubes.VerifFrame{AckNo: hv.Pick(r, u32s), FrameNo: hv.Pick(r, u32s), TubeID: byte(r.Intn(256)), Data: xw.PatternD(n, byte(r.U64()), byte(r.Intn(4)))}
+	f := tubes.VerifWireFrame{AckNo: hv.Pick(r, u32s), FrameNo: hv.Pick(r, u32s), TubeID: byte(r.Intn(256)), Data: xw.PatternD(n, byte(r.U64()), byte(r.Intn(4)))}
 	m := r.Intn(64)
 	f.REQ, f.RESP, f.REL, f.ACK, f.FIN, f.RTR = m&1 != 0, m&2 != 0, m&4 != 0, m&8 != 0, m&16 != 0, m&32 != 0
 	f.DataLength = uint16(n)
@@ -213,9 +213,9 @@ func exact(b []byte) []byte { // capacity = length, so Go's cap-based slice chec
 }
 
 func fromBytesCase(b []byte, class string) {
-	var got tubes.VerifFrame
+	var got tubes.VerifWireFrame
 	var err error
-	p, msg := hv.Catch(func() { got, err = tubes.VerifFromBytes(exact(b)) })
+	p, msg := hv.Catch(func() { got, err = tubes.VerifWireFromBytes(exact(b)) })
 	code := xw.OK
 	vd := good()
 	if p {
@@ -223,10 +223,10 @@ func fromBytesCase(b []byte, class string) {
 		vd = bad("C18:frame-decoder-panics", "fromBytes panicked on a %d-byte buffer: %s", len(b), msg)
 	} else if err != nil {
 		code = xw.ERR
-		got = tubes.VerifFrame{}
+		got = tubes.VerifWireFrame{}
 	} else {
 		// stability: re-encoding what was parsed parses to the same frame
-		again, err2 := tubes.VerifFromBytes(tubes.VerifFrameToBytes(got))
+		again, err2 := tubes.VerifWireFromBytes(tubes.VerifWireFrameToBytes(got))
 		if err2 != nil || !eqFrame(again, got) {
 			vd = bad("C18:frame-not-stable", "fromBytes(toBytes(f)) differs from f for a parsed frame")
 		}
@@ -238,8 +238,8 @@ func fromBytesCase(b []byte, class string) {
 		Desc: "fromBytes #" + ident(b), Spec: vd.ok, Sig: vd.sig, What: vd.what, NT: len(b) >= 4,
 		Replay: map[string]interface{}{"format": "frame", "op": "fromBytes", "len": len(b), "hex": hex.EncodeToString(clip(b))}})
 	// the muxer's re-framing of the same buffer (peer-reachable)
-	var ig tubes.VerifInitFrame
-	p, msg = hv.Catch(func() { ig, err = tubes.VerifReframe(exact(b)) })
+	var ig tubes.VerifWireInitFrame
+	p, msg = hv.Catch(func() { ig, err = tubes.VerifWireReframe(exact(b)) })
 	code = xw.OK
 	vd = good()
 	if p {
@@ -247,7 +247,7 @@ func fromBytesCase(b []byte, class string) {
 		vd = bad("C18:reframe-panics", "fromInitiateBytes(frame.toBytes()) panicked: %s", msg)
 	} else if err != nil {
 		code = xw.ERR
-		ig = tubes.VerifInitFrame{}
+		ig = tubes.VerifWireInitFrame{}
 	}
 	hv.Emit(hv.Case{Fn: "c18_reframe", Coq: hv.Tuple(xw.CoqBytes(b), hv.Ni(code), coqIFrame(ig)), Class: "frame/reframe-" + class,
 		Desc: "reframe #" + ident(b), Spec: vd.ok, Sig: vd.sig, What: vd.what, NT: len(b) >= 4,
@@ -258,11 +258,11 @@ func frames(r *hv.Rand) {
 	n := hv.Scale(70, 2000)
 	for k := 0; k < n; k++ {
 		f := genFrame(r)
-		b := tubes.VerifFrameToBytes(f)
+		b := tubes.VerifWireFrameToBytes(f)
 		vd := good()
 		if int(f.DataLength) == len(f.Data) {
 			junk := r.Bytes(r.Intn(20))
-			back, err := tubes.VerifFromBytes(append(append([]byte(nil), b...), junk...))
+			back, err := tubes.VerifWireFromBytes(append(append([]byte(nil), b...), junk...))
 			if err != nil || !eqFrame(back, f) {
 				vd = bad("C18:frame-roundtrip", "fromBytes(toBytes(f) ++ junk) differs from f")
 			}
@@ -300,12 +300,12 @@ func frames(r *hv.Rand) {
 	// initiate frames
 	for k := 0; k < hv.Scale(40, 600); k++ {
 		n := hv.Pick(r, []int{0, 0, 0, 1, 5, 100})
-		f := tubes.VerifInitFrame{FrameNo: hv.Pick(r, u32s), TubeID: byte(r.Intn(256)), TubeType: byte(r.Intn(256)), Data: xw.PatternD(n, byte(r.U64()), byte(r.Intn(4))), DataLength: uint16(n)}
+		f := tubes.VerifWireInitFrame{FrameNo: hv.Pick(r, u32s), TubeID: byte(r.Intn(256)), TubeType: byte(r.Intn(256)), Data: xw.PatternD(n, byte(r.U64()), byte(r.Intn(4))), DataLength: uint16(n)}
 		m := r.Intn(64)
 		f.REQ, f.RESP, f.REL, f.ACK, f.FIN, f.RTR = m&1 != 0, m&2 != 0, m&4 != 0, m&8 != 0, m&16 != 0, m&32 != 0
-		b := tubes.VerifInitToBytes(f)
-		var back tubes.VerifInitFrame
-		p, msg := hv.Catch(func() { back = tubes.VerifFromInitiateBytes(exact(b)) })
+		b := tubes.VerifWireInitToBytes(f)
+		var back tubes.VerifWireInitFrame
+		p, msg := hv.Catch(func() { back = tubes.VerifWireFromInitiateBytes(exact(b)) })
 		vd := good()
 		if p {
 			vd = bad("C18:iframe-roundtrip", "fromInitiateBytes panicked on toBytes output: %s", msg)
@@ -317,12 +317,12 @@ func frames(r *hv.Rand) {
 			Desc: "initiateFrame.toBytes #" + ident(b), Spec: vd.ok, Sig: vd.sig, What: vd.what, NT: true})
 		// direct fromInitiateBytes on arbitrary buffers: internal function without checks, only compared with the model
 		for _, mb := range [][]byte{b, b[:r.Intn(len(b)+1)], setLen(b, hv.Pick(r, []int{0, 1, n + 1, 65525, 65526, 65535}))} {
-			var g tubes.VerifInitFrame
-			p, _ := hv.Catch(func() { g = tubes.VerifFromInitiateBytes(exact(mb)) })
+			var g tubes.VerifWireInitFrame
+			p, _ := hv.Catch(func() { g = tubes.VerifWireFromInitiateBytes(exact(mb)) })
 			code := xw.OK
 			if p {
 				code = xw.PANIC
-				g = tubes.VerifInitFrame{}
+				g = tubes.VerifWireInitFrame{}
 			}
 			hv.Emit(hv.Case{Fn: "c18_iframe_from_bytes", Coq: hv.Tuple(xw.CoqBytes(mb), hv.Ni(code), coqIFrame(g)), Class: "iframe/bytes",
 				Desc: "fromInitiateBytes #" + ident(mb), Spec: true, NT: len(mb) >= 4})
@@ -335,7 +335,7 @@ func frames(r *hv.Rand) {
 		var q []byte
 		var wn int
 		var err error
-		p, pm := hv.Catch(func() { q, wn, err = tubes.VerifUnreliableWrite(id, no, msg) })
+		p, pm := hv.Catch(func() { q, wn, err = tubes.VerifWireUnreliableWrite(id, no, msg) })
 		code := xw.OK
 		vd := good()
 		switch {
@@ -349,7 +349,7 @@ func frames(r *hv.Rand) {
 				vd = bad("C18:unreliable-rejects-representable", "WriteMsgUDP refused a %d-byte message", n)
 			}
 		default:
-			back, e2 := tubes.VerifFromBytes(q)
+			back, e2 := tubes.VerifWireFromBytes(q)
 			if n > 32768 {
 				vd = bad("C18:unreliable-encodes-unrepresentable", "WriteMsgUDP accepted a %d-byte message (limit 32768); framed with dataLength %d", n, int(q[2])<<8|int(q[3]))
 			} else if e2 != nil || !bytes.Equal(back.Data, msg) || int(back.DataLength) != n || wn != n || len(q) != 12+n {
@@ -374,11 +374,11 @@ func setLen(b []byte, dl int) []byte {
 var relMsg = &xw.Format{
 	Name: "relmsg", EncFn: "c18_enc_relmsg", DecFn: "c18_dec_relmsg",
 	Enc: func(v xw.Value) ([]byte, bool) {
-		s, _, err := tubes.VerifReliableWriteMsgUDP(v.([]byte))
+		s, _, err := tubes.VerifWireReliableWriteMsgUDP(v.([]byte))
 		return s, err == nil
 	},
 	Dec: func(b []byte) (xw.Value, int, bool) {
-		m, left, err := tubes.VerifReliableReadMsgUDP(b)
+		m, left, err := tubes.VerifWireReliableReadMsgUDP(b)
 		return append([]byte(nil), m...), left, err == nil
 	},
 	Coq:  func(v xw.Value) string { return xw.CoqBytes(v.([]byte)) },
